@@ -1034,6 +1034,17 @@ func romCheckCmd(args []string) int {
 			}
 		}
 	}
+	// a large image: banks $80 and above lie inside it (high bank bits must not be dropped or mirrored)
+	{
+		size := 0x410000
+		for _, bank := range []int{0x00, 0x01, 0x7F, 0x80, 0x81} {
+			for _, d := range []int{0, 3, 0x7FFF} {
+				a := uint32(bank)<<16 | uint32(0xFFFF-d)
+				cases = append(cases, &romCase{ID: fmt.Sprintf("big/size=%d/$%06X", size, a), Seed: 5, Size: size,
+					Ops: []romOp{{K: "NR", A: a}, {K: "NW", A: a}, wop(0, 2, 1), {K: "R", H: 0, N: 2}, {K: "NR", A: a}, {K: "R", H: 1, N: 4}}})
+			}
+		}
+	}
 	fails := map[string]int{}
 	calls := 0
 	rc := 0
